@@ -33,16 +33,23 @@ Atoms(f) ==
       [] f = "debug_field"   -> {"skip", "ignore", "lit", "unknown"}
       [] f \in FmtForbidden  -> {"skip", "ignore", "lit", "unknown", "legacy_fmt"}
       [] f = "from_variant"  -> {"from", "skip", "ignore", "forward", "ty_a", "ty_b", "ty_ab", "ty_ab_comma", "legacy_types"}
-      [] f = "from_struct"   -> {"forward", "ty_a", "ty_b", "ty_ab", "ty_ab_comma", "legacy_types"}
+      [] f = "from_struct"   -> {"forward", "ty_a", "ty_b", "ty_ab", "ty_ab_comma", "legacy_types", "variant_only_from"}
       [] f = "asref_struct"  -> {"forward", "ty_a", "ty_b", "ty_ab", "ty_ab_comma"}
       [] f = "asref_field"   -> {"bare", "skip", "ignore", "forward", "ty_a", "ty_b", "ty_ab"}
-      [] f = "into_struct"   -> {"bare", "owned", "ref", "ref_mut", "owned_ref", "ref_refmut", "all3", "all3_comma", "ty_a", "ty_b", "ty_ab", "unknown_form"}
+      [] f = "into_struct"   -> {"bare", "owned", "ref", "ref_mut", "owned_ref", "ref_refmut", "all3", "all3_comma", "ty_a", "ty_b", "ty_ab", "unknown_form",
+                                 "legacy_types", "mixed_forms"}
       [] f = "into_field"    -> {"skip", "ignore"}
-      [] f = "legacy_field"  -> {"sel", "ignore", "forward", "unknown", "eq_value"}
-      [] f = "legacy_forms"  -> {"owned", "ref", "ref_mut", "owned_ref", "all3", "unknown"}
-      [] f = "error_field"   -> {"source", "not_source", "backtrace", "ignore", "source_backtrace", "unknown"}
+      [] f = "legacy_field"  -> {"sel", "ignore", "forward", "unknown", "eq_value", "name_value", "lit_param"}
+      [] f = "legacy_forms"  -> {"owned", "ref", "ref_mut", "owned_ref", "all3", "unknown", "list_param", "name_value"}
+      [] f = "error_field"   -> {"source", "not_source", "backtrace", "ignore", "source_backtrace", "unknown", "nested_not", "not_unknown",
+                                 "list_param"}
 
-Corrupt(f, a) == a \in {"legacy_fmt", "legacy_bound", "unknown", "legacy_types", "rename_bad", "unknown_form", "eq_value"}
+Corrupt(f, a) == a \in {"legacy_fmt", "legacy_bound", "unknown", "legacy_types", "rename_bad", "unknown_form", "eq_value",
+                         \* malformed parameter shapes of the State-based derives and of Into
+                         "mixed_forms", "name_value", "lit_param", "list_param", "nested_not", "not_unknown",
+                         \* a bare `#[from]` chooses among VARIANTS: on a struct it means nothing and is rejected
+                         \* (`#[from(skip)]` on a struct is a type list naming a type called `skip`: C08's subject)
+                         "variant_only_from"}
 
 Kind(f, a) ==
     CASE a \in {"lit", "lit_b"} -> "fmt"
